@@ -3,7 +3,9 @@
 from __future__ import annotations
 
 import itertools
+import json
 import os
+import pickle
 import re
 import sys
 
@@ -11,8 +13,8 @@ sys.path.insert(0, os.path.dirname(os.path.abspath(__file__)))
 import core
 from core import enc_str
 
-from prompt_toolkit.formatted_text import ANSI, HTML, FormattedText, Template, merge_formatted_text, \
-    to_formatted_text, to_plain_text
+from prompt_toolkit.formatted_text import ANSI, HTML, FormattedText, PygmentsTokens, Template, \
+    merge_formatted_text, to_formatted_text, to_plain_text
 from prompt_toolkit.formatted_text.ansi import ansi_escape
 from prompt_toolkit.formatted_text.html import html_escape
 from prompt_toolkit.formatted_text.utils import fragment_list_len, fragment_list_to_text, \
@@ -21,63 +23,138 @@ from prompt_toolkit.layout.utils import explode_text_fragments
 
 ID = "C18"
 DRIVER = "drv_c18"
-PROPS = ["Ptk.Props.C18Frag", "Ptk.Props.C18", "Ptk.Props.C18Tok", "Ptk.Props.C18Html"]
+PROPS = ["Ptk.Props.C18Frag", "Ptk.Props.C18", "Ptk.Props.C18Tok", "Ptk.Props.C18Html", "Ptk.Props.C18Sess",
+         "Ptk.Props.C18Expl", "Ptk.Props.C18Round", "Ptk.Props.C18Int"]
 TECHNIQUE = "Lean 4 proof over hand-written executable model + differential correspondence with the real code"
 LEVEL_TEXT = ("Lean 4 theorems over an executable model of the formatted-text layer: the ANSI parser as an explicit "
-              "state machine proved equal to the interpretation of a token grammar of its input (so the visible text "
-              "is the input minus recognised control sequences, in order; plain strings are reproduced verbatim; the "
-              "parameter buffer only ever holds ASCII digits), interpolation inertness for ANSI.format / % templates "
-              "with any number of holes at ground state (escaped values are spliced in with the surrounding style, "
-              "parser state unchanged), the same for HTML on a modelled XML sub-grammar (tokenizer + process_node "
-              "walk: an escaped value in text position yields exactly its own characters in the enclosing style), "
-              "html_escape / ansi_escape metacharacter freedom and round trip, split_lines = cut at newlines with "
-              "every character's style kept and join identity, explode / fragment_list_* / Template / merge laws; "
-              "tied to /repo on every run by generated SGR tables, a differential correspondence (exhaustive small "
-              "scope + random) and a model-independent property oracle on the real code")
+              "state machine proved equal to the interpretation of a token grammar of its input (visible text = input "
+              "minus recognised control sequences, in order; plain strings verbatim; at most 9999 fragments per input "
+              "character), ANSI(ansi_escape(v)) and HTML(html_escape(v)) show the text of v for every string v with "
+              "the exact set of replaced code points, and both escape functions are proved equal to the source's own "
+              "chain of .replace calls (tables regenerated from /repo); interpolation inertness for ANSI / HTML .format(*args, **kwargs) "
+              "and % with automatic, numbered and keyword fields, !r !s !a conversions and format specs (any number "
+              "of holes at ground state / in text position: each escaped value is spliced in with the surrounding "
+              "style, parser state unchanged; only the referenced values matter; format pads the value, % pads the "
+              "escaped text); sessions: in any sequence of constructions and format / % / to_formatted_text calls in "
+              "one process the result of a call is a function of the template text of its object and of this call's "
+              "own values (fresh or reused object, any history), with the inventory of module / class / instance "
+              "state of the anchored modules pinned; HTML on a modelled XML sub-grammar incl. comments, CDATA "
+              "sections, processing instructions, all character references; split_lines = cut at line feeds only, "
+              "every character's style and handler kept, join identity; explode / fragment_list_* / Template / merge "
+              "/ PygmentsTokens / to_formatted_text(auto_convert) laws; every mutator _ExplodedList defines keeps "
+              "the one-character invariant. Three statements that are FALSE of the current code are refuted on "
+              "witnesses in Lean and replayed on the real code (int() of an over-long CSI parameter raises: known "
+              "finding with a proposed fix proved value-preserving; the inherited += and l[-1] = x of _ExplodedList: "
+              "observations). Tied to /repo on every run by generated tables and pins, a differential "
+              "correspondence in which every case runs in its own process image (exhaustive small scope + random, "
+              "incl. call sequences on the same template text) and a model-independent property oracle")
 LEVEL_NOTE = ("trusted: Lean kernel, axioms propext/Classical.choice/Quot.sound only; the hand-written model "
-              "(validated by the correspondence, not proved equal to the Python); CPython str/format/% semantics; "
-              "HTML is partial: xml.dom.minidom/expat is modelled on a small sub-grammar only (sampled against the "
-              "real parser, not verified)")
+              "(validated by the correspondence, not proved equal to the Python); CPython str / format / % / repr / "
+              "str.isprintable / int-string-conversion-limit semantics (runtime tables regenerated per run); "
+              "HTML is partial: xml.dom.minidom/expat is modelled on a sub-grammar only (sampled against the real "
+              "parser, not verified)")
 RULE = ("exhaustive: every ANSI input over an 11-symbol alphabet (ESC, 8-bit CSI, '[', digit, ';', 'm', 'C', "
         "SOH, STX, letter, superscript two) up to the tier's length; every SGR code 0..110 and the 38/48 "
-        "extended forms incl. truncated ones; every markup string over a 12-symbol XML alphabet up to the tier's "
-        "length; every template from fixed pools (holes at ground, inside a CSI, inside / right after a zero-width "
-        "block; HTML holes in text, in single- and double-quoted attributes, as tag name) x every value over "
-        "16-symbol alphabets (printable, markup metacharacters, both quotes, CR/LF, ESC, NUL, CSI 7/8-bit, "
-        "zero-width markers, BS, format-spec characters) up to the tier's length via format() and %; every "
-        "fragment list up to 3 fragments over 4 styles x texts up to length 3 over {a, newline, wide}; then "
-        "seeded random larger cases (random ANSI streams, random well-formed and damaged markup, random "
-        "templates/values/specs, fragment lists with handlers, to_formatted_text/Template/merge trees). A case "
-        "is non-trivial when some op has a control or markup character, a hole, a newline or more than one "
-        "fragment")
+        "extended forms incl. truncated ones; CSI parameters of limit-1, limit, limit+1 digits (int-string "
+        "limit); every markup string over a 12-symbol XML alphabet up to the tier's length and every "
+        "concatenation of up to 3 (thorough: 4) of 17 markup tokens (comment / CDATA / PI delimiters, tags, "
+        "references, CR, LF); every template from fixed pools (holes at ground, inside a CSI, inside / right "
+        "after a zero-width block; HTML holes in text, in single- and double-quoted attributes, as tag name) x "
+        "every value over 16-symbol alphabets (printable, markup metacharacters, both quotes, CR/LF, ESC, NUL, "
+        "CSI 7/8-bit, zero-width markers, BS, format-spec characters) up to the tier's length via format() and %; "
+        "sessions: 11 templates (keyword, numbered, automatic, mixed fields, conversion, attribute hole, %) x "
+        "every ordered pair of 9 values as consecutive calls x {one reused object, a fresh object per call, two "
+        "templates interleaved}, plus non-str pairs (1/True, 0/False, '1'/1, None, lists, hashable and "
+        "unhashable objects); every fragment list up to 3 fragments over 4 styles x texts up to length 3 over "
+        "{a, newline, wide}; every single _ExplodedList operation from a pool of ~400 (all int indexes -3..3, all "
+        "slice bounds in {None,-2,-1,0,1,2,5}^2, fragment / list / self values) on 3 lists; "
+        "to_formatted_text(auto_convert) over depth 0..2 x flag x style x value kind; then seeded random larger "
+        "cases (ANSI streams, well-formed and damaged markup, templates with keyword / numbered / automatic "
+        "fields, conversions, specs, non-str values, missing arguments, sessions of up to 8 calls on up to 3 "
+        "objects, fragment lists with handlers, mutator sequences, to_formatted_text / Template / merge / "
+        "PygmentsTokens trees, repr / ascii). Every case is evaluated in its own process (fork of a fresh "
+        "interpreter). A case is non-trivial when some op has a control or markup character, a hole, a newline "
+        "or more than one fragment")
 EXHAUSTIVE = True
 EXHAUSTIVE_SCOPE = {
-    "quick": "ANSI strings len<=4 over 11 symbols; markup strings len<=4 over 12 symbols; values len<=2 over 16 "
-             "symbols x template pools; fragment lists <=2 frags, texts len<=3",
+    "quick": "ANSI strings len<=4 over 11 symbols; markup strings len<=4 over 12 symbols, <=3 of 17 markup tokens; "
+             "values len<=2 over 16 symbols x template pools; 11 session templates x 81 ordered value pairs x 3 "
+             "object disciplines; fragment lists <=2 frags, texts len<=3; ~400 single _ExplodedList operations x 3 lists",
     "thorough": "ANSI strings len<=5 over 11 symbols (+len 6 over 7 symbols); markup strings len<=5 over 12 "
-                "symbols; values len<=3 over 16 symbols x template pools; fragment lists <=3 frags, texts len<=3"}
-TRUSTED = ["harness/c18.py compares fragment lists (style, text, handler id) / strings / error class per op",
-           "Ptk/Model/C18.lean, C18Html.lean are hand translations of formatted_text/{ansi,html,base,utils}.py and "
-           "layout/utils.py (correspondence-checked)",
-           "harness/gen_c18.py prints _fg_colors/_bg_colors/_256_colors and the wcwidth of the test characters; "
-           "the side condition tablesOK (no '[' in a colour name) is re-decided by the kernel on every run"]
+                "symbols, <=4 of 17 markup tokens; values len<=3 over 16 symbols x template pools; sessions as "
+                "quick; fragment lists <=3 frags, texts len<=3; _ExplodedList as quick"}
+TRUSTED = ["harness/c18.py compares fragment lists (style, text, handler id) / strings / error class per op; each case "
+           "runs in a fork of a freshly started interpreter that has only imported the library",
+           "Ptk/Model/C18.lean, C18Html.lean, C18Sess.lean, C18Expl.lean are hand translations of "
+           "formatted_text/{ansi,html,base,utils,pygments}.py and layout/utils.py (correspondence-checked)",
+           "harness/gen_c18.py prints _fg_colors/_bg_colors/_256_colors, the wcwidth of the test characters, "
+           "str.isprintable ranges, sys.get_int_max_str_digits(), the .replace(a, b) chains of html_escape / "
+           "ansi_escape in source order, the pattern of _XML_ILLEGAL_CHARS_RE, the expression appended to params in "
+           "_parse_corot and the state inventory of the anchored modules; tablesOK (no '[' in a colour name), "
+           "ChainOK of the replace chains (htmlEscape_eq_chain / ansiEscape_eq_chain: the model's escape functions "
+           "ARE the source's replace chains) and the pins (moduleState_pinned, htmlTbl_pinned, ansiTbl_pinned, "
+           "xmlIllegalPattern_pinned, ansiParamExpr_pinned) are re-decided by the kernel on every run"]
 ASSUMPTIONS = ["CPython str.format / Formatter.vformat / % semantics on the modelled sub-grammar "
-               "(literal, {{, }}, {[n][:[[fill]align][width][.prec][s]]}; %%, %[-][width][.prec]s)",
+               "(literal, {{, }}, {[n|name][!r|!s|!a][:[[fill]align][width][.prec][s]]}; %%, %[-][width][.prec]s); "
+               "repr(str) / ascii as in unicode_repr with str.isprintable as a generated table",
+               "non-str values enter through str(v) / repr(v) as computed by CPython (passed to the model as data); "
+               "format(v, spec) of numbers with a non-empty spec is not modelled (never generated)",
                "wcwidth is a parameter of fragment_list_width (table of the test characters regenerated per run)",
                "xml.dom.minidom/expat on the modelled sub-grammar (elements, quoted attributes, the five predefined "
-               "entities, numeric character references, line-end and attribute-value normalisation, ban of ]]> and "
-               "of characters outside the XML Char production; adjacent character data forms one text node)",
-               "values are str (str(value) / format(value, spec) of other types is CPython's)"]
-PARTIAL_SCOPE = ["HTML: minidom/expat is modelled on a sub-grammar only (no comments, CDATA, processing "
-                 "instructions, DOCTYPE, namespaces, non-ASCII names); the theorems are about that model",
+               "entities, numeric character references, comments, CDATA sections, processing instructions, line-end "
+               "and attribute-value normalisation, ban of ]]> and of characters outside the XML Char production; "
+               "adjacent character data forms one text node; an empty CDATA section leaves no node)",
+               "list.__setitem__(slice) / list.__iadd__ as CPython defines them (step-1 slices)",
+               "int(s) raises ValueError exactly when s has more than sys.get_int_max_str_digits() digits"]
+PARTIAL_SCOPE = ["HTML: minidom/expat is modelled on a sub-grammar only: names with ':' (namespace scoping and the "
+                 "duplicate-by-URI rule of expat's namespace mode), xmlns declarations, non-ASCII names (XML 1.0 "
+                 "4th-edition name classes), DOCTYPE / entity declarations stay out; the theorems are about that "
+                 "model. Comments, non-empty CDATA sections and processing instructions are modelled as the code "
+                 "treats them: AttributeError from process_node (observation, not claimed as a violation)",
                  "interpolation inertness is claimed (and proved) for holes at parser ground state only: a hole "
                  "inside a template control sequence (e.g. ESC[{}m), right after a zero-width block, or inside an "
                  "HTML tag / attribute is template-controlled, not inert",
-                 "known findings (status known): HTML.__mod__ applies %-width/precision to the escaped text; a value "
-                 "ending in ] followed by a literal > forms ]]>; a literal CR directly before a hole merges with a "
-                 "leading LF of the value",
-                 "format(): conversions (!r), nested fields, keyword fields and non-str values are not modelled",
-                 "_ExplodedList mutation methods (append/extend/__setitem__) are not modelled"]
+                 "known findings (status known): ANSI('ESC[' + 4301 digits + 'm') raises ValueError (int-string "
+                 "limit; ansi_total_partial excludes inputs with a longer digit run; fix proposed and proved "
+                 "value-preserving: clampParam_eq); HTML.__mod__ applies %-width/precision to the escaped text "
+                 "(format_pads_value_percent_pads_escaped); a value ending in ] followed by a literal > forms ]]>; "
+                 "a literal CR directly before a hole merges with a leading LF of the value",
+                 "format(): nested fields ({:{}}), attribute / index lookups ({a.b}, {a[0]}), field numbers of more "
+                 "than 9 digits, non-identifier keyword names, format specs of numbers are not modelled",
+                 "sessions: only the state inventoried by gen_c18.py is pinned (module-level objects, cached "
+                 "functions, class-level containers, instance attributes of HTML / ANSI); the FormattedText that "
+                 "to_formatted_text(HTML(...)) returns is the object's own list (aliasing: a caller that mutates it "
+                 "changes the HTML object) - not modelled",
+                 "_ExplodedList: slices with a step other than 1 and the inherited list methods other than += are "
+                 "not modelled; observations proved on witnesses: += does not explode (iadd_breaks_exploded), "
+                 "l[-1] = x inserts before the last element and an index past the end appends "
+                 "(setItem_minus_one_inserts)",
+                 "lone surrogates (a Python str can hold them, a Lean Char cannot) are exercised by the oracle on "
+                 "the real code only",
+                 "to_formatted_text: auto_convert is not passed on to the value a callable returns "
+                 "(toFormattedTextAC_call_other; modelled as it is)"]
+ANCHORS = ["src/prompt_toolkit/formatted_text/ansi.py", "src/prompt_toolkit/formatted_text/html.py",
+           "src/prompt_toolkit/formatted_text/base.py", "src/prompt_toolkit/formatted_text/utils.py",
+           "src/prompt_toolkit/formatted_text/pygments.py", "src/prompt_toolkit/layout/utils.py",
+           "src/prompt_toolkit/styles/pygments.py"]
+MODELLED = {
+    "src/prompt_toolkit/formatted_text/ansi.py": [
+        "ANSI.__init__", "ANSI._parse_corot", "ANSI._select_graphic_rendition", "ANSI._create_style_string",
+        "ANSI.__pt_formatted_text__", "ANSI.format", "ANSI.__mod__", "ANSIFormatter.format_field", "ansi_escape"],
+    "src/prompt_toolkit/formatted_text/html.py": [
+        "HTML.__init__", "HTML.__init__.get_current_style", "HTML.__init__.process_node",
+        "HTML.__pt_formatted_text__", "HTML.format", "HTML.__mod__", "HTMLFormatter.format_field", "html_escape"],
+    "src/prompt_toolkit/formatted_text/base.py": [
+        "to_formatted_text", "FormattedText.__pt_formatted_text__", "Template.__init__", "Template.format",
+        "Template.format.get_result", "merge_formatted_text", "merge_formatted_text._merge_formatted_text"],
+    "src/prompt_toolkit/formatted_text/utils.py": [
+        "to_plain_text", "fragment_list_len", "fragment_list_width", "fragment_list_to_text", "split_lines"],
+    "src/prompt_toolkit/formatted_text/pygments.py": ["PygmentsTokens.__init__", "PygmentsTokens.__pt_formatted_text__"],
+    "src/prompt_toolkit/styles/pygments.py": ["pygments_token_to_classname"],
+    "src/prompt_toolkit/layout/utils.py": [
+        "explode_text_fragments", "_ExplodedList.append", "_ExplodedList.extend", "_ExplodedList.insert",
+        "_ExplodedList.__setitem__"],
+}
 
 ESC, CSI8, SOH, STX, BS = "\x1b", "\x9b", "\x01", "\x02", "\x08"
 
@@ -148,9 +225,76 @@ def real_any(v):
     return val
 
 
+# ------------------------------------------------------------------ interpolated values
+# a value is a JSON string (a Python str) or a one-entry dict describing a non-str Python value:
+#   {"int": 3} {"bool": true} {"none": 1} {"list": ["a", "<"]}          built-in types
+#   {"obj": [str_text, repr_text]}   instance of a user class (hashable, object.__format__)
+#   {"uobj": [str_text, repr_text]}  the same, unhashable
+class _Obj:
+    def __init__(self, s, r):
+        self._s, self._r = s, r
+
+    def __str__(self):
+        return self._s
+
+    def __repr__(self):
+        return self._r
+
+
+class _UObj(_Obj):
+    __hash__ = None
+
+
+def real_val(v):
+    if isinstance(v, str):
+        return v
+    (k, x), = v.items()
+    if k == "int":
+        return int(x)
+    if k == "bool":
+        return bool(x)
+    if k == "none":
+        return None
+    if k == "list":
+        return list(x)
+    if k == "obj":
+        return _Obj(x[0], x[1])
+    if k == "uobj":
+        return _UObj(x[0], x[1])
+    raise ValueError(v)
+
+
+def enc_val(v):
+    """wire form: what format()/str()/repr() can see of the value (str and repr are CPython's)"""
+    if isinstance(v, str):
+        return "S " + enc_str(v)
+    rv = real_val(v)
+    kind = "N" if isinstance(rv, int) else "P"
+    return f"{kind} {enc_str(str(rv))} {enc_str(repr(rv))}"
+
+
+def enc_vals(vs):
+    return " ".join([str(len(vs))] + [enc_val(v) for v in vs])
+
+
+def enc_kwargs(kw):
+    kw = kw or {}
+    return " ".join([str(len(kw))] + [enc_str(k) + " " + enc_val(v) for k, v in kw.items()])
+
+
+def op_args(op):
+    """(positional values, keyword values) of a format / % op"""
+    k = op[0]
+    if k in ("amod1", "hmod1", "smod1"):
+        return [op[2]], {}
+    kw = op[3] if len(op) > 3 and op[3] else {}
+    return list(op[2]), dict(kw)
+
+
 # ------------------------------------------------------------------ templates
-# a template is a list of items: ["lit", text] | ["hole", idx|None, spec] ; spec is the raw spec text
-# (format: after ':' ; percent: between '%' and 's')
+# a template is a list of items: ["lit", text] | ["hole", arg, spec] | ["hole", arg, spec, conv];
+# arg = None (automatic) | int (numbered) | str (keyword); spec is the raw spec text
+# (format: after ':' ; percent: between '%' and 's'); conv = None | "r" | "s" | "a"
 def render_format_template(items):
     out = []
     for it in items:
@@ -158,7 +302,8 @@ def render_format_template(items):
             out.append(it[1].replace("{", "{{").replace("}", "}}"))
         else:
             idx = "" if it[1] is None else str(it[1])
-            out.append("{" + idx + (":" + it[2] if it[2] is not None else "") + "}")
+            conv = "!" + it[3] if len(it) > 3 and it[3] else ""
+            out.append("{" + idx + conv + (":" + it[2] if it[2] is not None else "") + "}")
     return "".join(out)
 
 
@@ -187,10 +332,26 @@ def op_line(op):
     k = op[0]
     if k in ("ansi", "aesc", "hesc", "html"):
         return f"{k} {enc_str(op[1])}"
-    if k in ("afmt", "amod", "hfmt", "hmod"):
-        return f"{k} {enc_str(op_template(op))} " + " ".join([str(len(op[2]))] + [enc_str(v) for v in op[2]])
+    if k in ("afmt", "hfmt"):
+        args, kw = op_args(op)
+        return f"{k} {enc_str(op_template(op))} {enc_vals(args)} {enc_kwargs(kw)}"
+    if k in ("amod", "hmod"):
+        return f"{k} {enc_str(op_template(op))} {enc_vals(op[2])}"
     if k in ("amod1", "hmod1"):
-        return f"{k[:-1]} {enc_str(op_template(op))} 1 {enc_str(op[2])}"
+        return f"{k[:-1]} {enc_str(op_template(op))} 1 {enc_val(op[2])}"
+    if k in ("repr", "ascii"):
+        return f"{k} {enc_str(op[1])}"
+    if k == "snew":
+        return f"snew {op[1]} {op[2]} {enc_str(sess_template(op))}"
+    if k == "sfmt":
+        args, kw = op_args(op)
+        return f"sfmt {op[1]} {enc_vals(args)} {enc_kwargs(kw)}"
+    if k == "smod":
+        return f"smod {op[1]} {enc_vals(op[2])}"
+    if k == "smod1":
+        return f"smod {op[1]} 1 {enc_val(op[2])}"
+    if k == "sget":
+        return f"sget {op[1]}"
     if k in ("split", "explode", "text", "len", "width"):
         return f"{k} {enc_frags(op[1])}"
     if k == "tft":
@@ -201,17 +362,142 @@ def op_line(op):
         return f"templ {enc_str(op[1])} " + " ".join([str(len(op[2]))] + [enc_any(v) for v in op[2]])
     if k == "merge":
         return "merge " + " ".join([str(len(op[1]))] + [enc_any(v) for v in op[1]])
+    if k == "el":
+        return f"el {enc_frags(op[1])} " + " ".join([str(len(op[2]))] + [enc_el_op(o) for o in op[2]])
+    if k == "tfta":
+        return f"tfta {enc_str(op[1])} {1 if op[2] else 0} {enc_anyv(op[3])}"
+    if k == "pyg":
+        return "pyg " + " ".join([str(len(op[1]))] + [
+            " ".join([str(len(names))] + [enc_str(n) for n in names]) + " " + enc_str(tx) for names, tx in op[1]])
     raise ValueError(op)
 
 
+def enc_opt_int(v):
+    return "N" if v is None else str(v)
+
+
+def enc_el_arg(a):
+    return "S" if a[0] == "S" else "P " + enc_frags(a[1])
+
+
+def enc_el_op(o):
+    k = o[0]
+    if k == "A":
+        return "A " + enc_frag(o[1])
+    if k == "E":
+        return "E " + enc_el_arg(o[1])
+    if k in ("I", "S"):
+        return f"{k} {o[1]} {enc_frag(o[2])}"
+    if k == "SL":
+        return f"SL {o[1]} {enc_el_arg(o[2])}"
+    if k == "SS":
+        return f"SS {enc_opt_int(o[1])} {enc_opt_int(o[2])} {enc_el_arg(o[3])}"
+    if k == "ST":
+        return f"ST {enc_opt_int(o[1])} {enc_opt_int(o[2])} {enc_frag(o[3])}"
+    if k == "IA":
+        return "IA " + enc_frags(o[1])
+    if k == "X":
+        return "X"
+    raise ValueError(o)
+
+
+def enc_anyv(v):
+    d, kind, payload = v
+    if kind == "other":
+        return f"{d} other {enc_str(str(real_val(payload)))}"
+    return enc_any(v)
+
+
+def real_anyv(v):
+    d, kind, payload = v
+    if kind != "other":
+        return real_any(v)
+    val = real_val(payload)
+    for _ in range(d):
+        val = (lambda x: (lambda: x))(val)
+    return val
+
+
+def run_el(init, ops):
+    """explode_text_fragments(init), then the operations on the _ExplodedList"""
+    l = explode_text_fragments(to_real_frags(init))
+
+    def arg(a):
+        return l if a[0] == "S" else to_real_frags(a[1])
+
+    def frag(f):
+        return to_real_frags([f])[0]
+
+    errs = []
+    for o in ops:
+        k = o[0]
+        try:
+            if k == "A":
+                l.append(frag(o[1]))
+            elif k == "E":
+                l.extend(arg(o[1]))
+            elif k == "I":
+                l.insert(o[1], frag(o[2]))
+            elif k == "S":
+                l[o[1]] = frag(o[2])
+            elif k == "SL":
+                l[o[1]] = arg(o[2])
+            elif k == "SS":
+                l[o[1]:o[2]] = arg(o[3])
+            elif k == "ST":
+                l[o[1]:o[2]] = frag(o[3])
+            elif k == "IA":
+                l += to_real_frags(o[1])
+            elif k == "X":
+                l = explode_text_fragments(l)
+            errs.append(False)
+        except NotImplementedError:
+            errs.append(True)
+    return from_real_frags(l), errs
+
+
+def sess_template(op):
+    """the template text of a session `snew` op: ["snew", id, kind, items, "f" | "p"]"""
+    return render_format_template(op[3]) if op[4] == "f" else render_percent_template(op[3])
+
+
 def model_lines(case):
-    return [op_line(op) for op in case["ops"]]
+    # every case is one process image: the model's session state starts empty
+    return ["reset"] + [op_line(op) for op in case["ops"]]
 
 
 ERR_NAMES = {"IndexError", "ValueError", "TypeError", "AssertionError"}
 
 
-def run_op(op):
+class NoObject(Exception):
+    """a session op names an object whose construction failed"""
+
+
+FMT_OPS = ("afmt", "amod", "amod1", "hfmt", "hmod", "hmod1", "sfmt", "smod", "smod1")
+
+
+def fmt_object(op, objs=None):
+    """the HTML / ANSI object a format / % op returns on the real code"""
+    k = op[0]
+    args, kw = op_args(op)
+    rargs = [real_val(v) for v in args]
+    rkw = {n: real_val(v) for n, v in kw.items()}
+    if k in ("sfmt", "smod", "smod1"):
+        if objs is None or op[1] not in objs:
+            raise NoObject()
+        base = objs[op[1]]
+    elif k.startswith("a"):
+        base = ANSI(op_template(op))
+    else:
+        base = HTML(op_template(op))
+    if k in ("afmt", "hfmt", "sfmt"):
+        return base.format(*rargs, **rkw)
+    if k in ("amod", "hmod", "smod"):
+        return base % tuple(rargs)
+    return base % rargs[0]
+
+
+def run_op(op, objs=None):
     """run one op on the real code; returns a python value (frags list / str / int / lines)"""
     k = op[0]
     if k == "ansi":
@@ -222,18 +508,19 @@ def run_op(op):
         return ansi_escape(op[1])
     if k == "hesc":
         return html_escape(op[1])
-    if k == "afmt":
-        return from_real_frags(to_formatted_text(ANSI(op_template(op)).format(*op[2])))
-    if k == "amod":
-        return from_real_frags(to_formatted_text(ANSI(op_template(op)) % tuple(op[2])))
-    if k == "amod1":
-        return from_real_frags(to_formatted_text(ANSI(op_template(op)) % op[2]))
-    if k == "hfmt":
-        return from_real_frags(to_formatted_text(HTML(op_template(op)).format(*op[2])))
-    if k == "hmod":
-        return from_real_frags(to_formatted_text(HTML(op_template(op)) % tuple(op[2])))
-    if k == "hmod1":
-        return from_real_frags(to_formatted_text(HTML(op_template(op)) % op[2]))
+    if k == "repr":
+        return repr(op[1])
+    if k == "ascii":
+        return ascii(op[1])
+    if k in FMT_OPS:
+        return from_real_frags(to_formatted_text(fmt_object(op, objs)))
+    if k == "snew":
+        objs[op[1]] = (HTML if op[2] == "html" else ANSI)(sess_template(op))
+        return "ok"
+    if k == "sget":
+        if op[1] not in objs:
+            raise NoObject()
+        return from_real_frags(to_formatted_text(objs[op[1]]))
     if k == "split":
         return [from_real_frags(l) for l in split_lines(to_real_frags(op[1]))]
     if k == "explode":
@@ -252,28 +539,216 @@ def run_op(op):
         return from_real_frags(to_formatted_text(Template(op[1]).format(*[real_any(v) for v in op[2]])))
     if k == "merge":
         return from_real_frags(to_formatted_text(merge_formatted_text([real_any(v) for v in op[1]])))
+    if k == "el":
+        return run_el(op[1], op[2])
+    if k == "tfta":
+        return from_real_frags(to_formatted_text(real_anyv(op[3]), style=op[1], auto_convert=bool(op[2])))
+    if k == "pyg":
+        return from_real_frags(to_formatted_text(PygmentsTokens([(tuple(n), t) for n, t in op[1]])))
     raise ValueError(op)
 
 
 def enc_result(op, r):
     k = op[0]
-    if k in ("aesc", "hesc", "text", "plain"):
+    if k in ("aesc", "hesc", "text", "plain", "repr", "ascii"):
         return enc_str(r)
     if k in ("len", "width"):
         return str(r)
+    if k == "snew":
+        return "ok"
+    if k == "el":
+        return enc_frags(r[0]) + " " + " ".join([str(len(r[1]))] + ["1" if e else "0" for e in r[1]])
     if k == "split":
         return " ".join([str(len(r))] + [enc_frags(l) for l in r])
     return enc_frags(r)
 
 
-def impl_lines(case):
-    out = []
+def eval_case(case):
+    """One process image: run the ops of the case in order on the real code (the objects created by
+    `snew` live until the end of the case), then judge every op with the property oracle.  For the
+    session ops the oracle judges the result obtained in sequence."""
+    objs = {}
+    lines = ["ok"]          # reply to `reset`
+    captured = []
     for op in case["ops"]:
         try:
-            out.append(enc_result(op, run_op(op)))
+            if op[0] in ("sfmt", "smod", "smod1"):
+                o = fmt_object(op, objs)
+                captured.append(("ok", o))
+                r = from_real_frags(to_formatted_text(o))
+            else:
+                r = run_op(op, objs)
+                captured.append(("val", r) if op[0] == "sget" else None)
+            lines.append(enc_result(op, r))
         except Exception as e:
-            out.append("err:" + type(e).__name__)
-    return out
+            captured.append(("exc", e))
+            lines.append("err:" + type(e).__name__)
+    try:
+        viol = oracle_case(case, captured)
+    except Exception as e:
+        import traceback
+        viol = [{"signature": "oracle-exception|" + type(e).__name__, "msg": traceback.format_exc()[-1500:]}]
+    return lines, viol
+
+
+# Every case is evaluated in its own process image: a fork of a freshly started interpreter (a
+# "zygote") that has imported the library and never calls it.  Module-level state of the library
+# (a cache, a memo, a counter) that one case leaves behind can then neither hide nor fake a failure
+# of another case, and a failing case replays alone.  The zygotes are small, so forking them is
+# cheap (forking the harness process itself, which holds all cases, costs 5-50 ms here).
+#
+# core.py evaluates case by case (SERIAL): on the first request for a case produced by `cases()`
+# the plugin evaluates ALL cases produced so far, in batches over several zygotes in parallel, and
+# answers from the stored results; cases that did not come from `cases()` (corpus, shrinking,
+# replay) go to a zygote one at a time.  VERIF_C18_NOFORK=1 evaluates in-process (debugging).
+SERIAL = True
+_REG = []           # cases in generation order
+_IDX = {}           # id(case) -> index in _REG   (the objects stay alive in _REG)
+_RES = {}           # index -> ("ok", (lines, violations)) | ("exc", message)
+_LAST = [None, None]
+_OWN = []           # the zygote of this process for single requests
+BATCH = 24
+
+
+def _read_exact(fd, n):
+    buf = b""
+    while len(buf) < n:
+        chunk = os.read(fd, n - len(buf))
+        if not chunk:
+            raise EOFError
+        buf += chunk
+    return buf
+
+
+def _write_frame(fd, data):
+    data = len(data).to_bytes(4, "little") + data
+    while data:
+        n = os.write(fd, data)
+        data = data[n:]
+
+
+def _read_frame(fd):
+    n = int.from_bytes(_read_exact(fd, 4), "little")
+    return _read_exact(fd, n)
+
+
+def zygote_main(rfd, wfd):
+    """runs in a freshly started interpreter: a request is a list of cases; one forked child per
+    case, one response frame per case"""
+    while True:
+        try:
+            batch = pickle.loads(_read_frame(rfd))
+        except EOFError:
+            os._exit(0)
+        for case in batch:
+            pid = os.fork()
+            if pid == 0:
+                try:
+                    try:
+                        import signal
+                        signal.alarm(600)       # a case that never returns kills only its own process
+                        payload = ("ok", eval_case(case))
+                    except BaseException as e:      # noqa: BLE001
+                        payload = ("exc", type(e).__name__ + ": " + str(e)[:300])
+                    _write_frame(wfd, pickle.dumps(payload))
+                finally:
+                    os._exit(0)
+            _, status = os.waitpid(pid, 0)
+            if status != 0:
+                _write_frame(wfd, pickle.dumps(("exc", f"child exited with status {status}")))
+
+
+class _Zygote:
+    def __init__(self):
+        import subprocess
+        r1, w1 = os.pipe()
+        r2, w2 = os.pipe()
+        self.proc = subprocess.Popen([sys.executable, os.path.abspath(__file__), "--zygote", str(r1), str(w2)],
+                                     pass_fds=(r1, w2), stdin=subprocess.DEVNULL)
+        os.close(r1)
+        os.close(w2)
+        self.w, self.r = w1, r2
+
+    def run(self, batch):
+        _write_frame(self.w, pickle.dumps(batch))
+        return [pickle.loads(_read_frame(self.r)) for _ in batch]
+
+    def close(self):
+        for fd in (self.w, self.r):
+            try:
+                os.close(fd)
+            except OSError:
+                pass
+        try:
+            self.proc.wait(timeout=10)
+        except Exception:
+            self.proc.kill()
+
+
+def _bulk():
+    """evaluate every registered case that has no result yet"""
+    import queue
+    import threading
+    todo = [i for i in range(len(_REG)) if i not in _RES]
+    if not todo:
+        return
+    procs = int(os.environ.get("VERIF_PROCS", "0")) or min(16, os.cpu_count() or 4)
+    q = queue.Queue()
+    for j in range(0, len(todo), BATCH):
+        q.put(todo[j:j + BATCH])
+
+    def worker():
+        z = None
+        try:
+            z = _Zygote()
+            while True:
+                try:
+                    b = q.get_nowait()
+                except queue.Empty:
+                    return
+                try:
+                    for i, payload in zip(b, z.run([_REG[i] for i in b])):
+                        _RES[i] = payload
+                except Exception as e:      # the zygote died: report on every case of the batch
+                    for i in b:
+                        _RES.setdefault(i, ("exc", f"zygote failed: {type(e).__name__}: {e}"))
+                    z.close()
+                    z = _Zygote()
+        finally:
+            if z is not None:
+                z.close()
+
+    threads = [threading.Thread(target=worker) for _ in range(max(1, min(procs, q.qsize())))]
+    for t in threads:
+        t.start()
+    for t in threads:
+        t.join()
+
+
+def evaluate(case):
+    if os.environ.get("VERIF_C18_NOFORK") == "1":
+        return eval_case(case)
+    i = _IDX.get(id(case))
+    if i is not None and _REG[i] is case:
+        if i not in _RES:
+            _bulk()
+        payload = _RES[i]
+    else:
+        key = json.dumps(case, sort_keys=True, default=str)
+        if _LAST[0] == key:
+            payload = _LAST[1]
+        else:
+            if not _OWN or _OWN[0].proc.poll() is not None:
+                _OWN[:] = [_Zygote()]
+            payload = _OWN[0].run([case])[0]
+            _LAST[0], _LAST[1] = key, payload
+    if payload[0] != "ok":
+        raise RuntimeError("C18 child: " + payload[1])
+    return payload[1]
+
+
+def impl_lines(case):
+    return evaluate(case)[0]
 
 
 # ------------------------------------------------------------------ oracle (independent of the model)
@@ -334,27 +809,90 @@ def py_format_value(v, spec, percent):
     return format(v, spec or "")
 
 
-def oracle_ansi_template(op, viol):
-    k = op[0]
-    items = op[1]
-    percent = k != "afmt"
-    vals = [op[2]] if k == "amod1" else list(op[2])
-    site = "ANSI.format" if k == "afmt" else "ANSI.__mod__"
-    # which value goes into which hole (CPython numbering rules; errors are not part of the property)
+def resolve_holes(items, percent, args, kw):
+    """per hole the value CPython's rules select (automatic / numbered / keyword fields), or None when
+    the call is an error by these rules (errors are not part of the property)"""
     holes = [it for it in items if it[0] == "hole"]
     if percent:
-        if len(holes) != len(vals):
-            return
-        picks = list(range(len(holes)))
+        return list(args) if len(holes) == len(args) else None
+    idxs = [h[1] for h in holes]
+    if any(i is None for i in idxs) and any(isinstance(i, int) for i in idxs):
+        return None
+    out, n = [], 0
+    for h in holes:
+        key = h[1]
+        if key is None:
+            key, n = n, n + 1
+        if isinstance(key, int):
+            if key >= len(args):
+                return None
+            out.append(args[key])
+        else:
+            if key not in kw:
+                return None
+            out.append(kw[key])
+    return out
+
+
+def hole_text(v, hole, percent):
+    """the text that has to appear for this hole, before padding: the value itself, converted as the
+    field asks (!r !s !a; str() of a non-str value).  None = format(non-str, non-empty spec), the
+    type's own mini-language: not claimed."""
+    rv = real_val(v)
+    conv = hole[3] if len(hole) > 3 else None
+    if percent:
+        return str(rv)
+    if conv == "r":
+        return repr(rv)
+    if conv == "s":
+        return str(rv)
+    if conv == "a":
+        return ascii(rv)
+    if isinstance(rv, str):
+        return rv
+    return str(rv) if hole[2] in (None, "") else None
+
+
+def make_call(op, captured=None, tmpl=None):
+    """a format / % call in the form the oracles use; `tmpl` = (kind, items, style) of the session
+    object, `captured` = the result obtained when the session ran"""
+    k = op[0]
+    args, kw = op_args(op)
+    if k in ("sfmt", "smod", "smod1"):
+        kind, items, style = tmpl
+        percent = k != "sfmt"
+        if (style == "p") != percent:
+            return None     # a format template used with % (or the reverse): nothing is claimed
+
+        def run():
+            if captured[0] == "exc":
+                raise captured[1]
+            return captured[1]
     else:
-        idxs = [h[1] for h in holes]
-        if any(i is None for i in idxs) and any(i is not None for i in idxs):
-            return
-        picks = [i if i is not None else n for n, i in enumerate(idxs)]
-        if any(p >= len(vals) for p in picks):
-            return
+        kind = "ansi" if k.startswith("a") else "html"
+        items = op[1]
+        percent = k not in ("afmt", "hfmt")
+
+        def run():
+            return fmt_object(op)
+    site = ("ANSI" if kind == "ansi" else "HTML") + (".__mod__" if percent else ".format")
+    holes = [it for it in items if it[0] == "hole"]
+    vals = resolve_holes(items, percent, args, kw)
+    used = None
+    if vals is not None:
+        used = [hole_text(v, h, percent) for v, h in zip(vals, holes)]
+        if any(u is None for u in used):
+            used = None
+    return {"kind": kind, "items": items, "percent": percent, "site": site, "holes": holes, "used": used,
+            "run": run, "op": op, "template": (render_percent_template if percent else render_format_template)(items)}
+
+
+def oracle_ansi_call(call, viol):
+    items, percent, site, used, op = call["items"], call["percent"], call["site"], call["used"], call["op"]
+    if used is None:
+        return
     try:
-        got = [(f[0], f[1]) for f in run_op(op)]
+        got = [(f[0], f[1]) for f in to_formatted_text(call["run"]())]
     except Exception as e:
         viol.append({"signature": f"{site} | raises", "msg": f"{type(e).__name__}: {e} op={op!r}"})
         return
@@ -373,7 +911,7 @@ def oracle_ansi_template(op, viol):
             style = at_ground(lits)
             if style is None:
                 return      # hole inside a template control sequence: template-controlled, not claimed
-            v = vals[picks[n]]
+            v = used[n]
             n += 1
             if percent:
                 e = py_format_value(expected_escape(v), it[2], True)
@@ -382,14 +920,14 @@ def oracle_ansi_template(op, viol):
             expected += [(style, c) for c in e]
     if got != expected:
         sig = "value not inert"
-        for v in vals:
+        for v in used:
             if CSI8 in v:
                 sig = "8-bit CSI passes"
             elif SOH in v or STX in v:
                 sig = "zero-width markers pass"
         viol.append({"signature": f"{site} | {sig}",
                      "msg": f"interpolated value changed more than its own characters: op={op!r} "
-                            f"got={got!r} expected={expected!r}"})
+                            f"template={call['template']!r} got={got!r} expected={expected!r}"})
 
 
 def explode_py(frags):
@@ -407,8 +945,13 @@ def oracle_op(op, viol):
         try:
             fr = ansi_frags(s)
         except Exception as e:
-            cond = "non-ASCII digit in CSI parameters" if isinstance(e, ValueError) else "raises"
-            bad("ANSI.__init__", cond, f"{type(e).__name__}: {e}")
+            cond = "raises"
+            if isinstance(e, ValueError):
+                cond = "non-ASCII digit in CSI parameters"
+                lim = sys.get_int_max_str_digits() if hasattr(sys, "get_int_max_str_digits") else 0
+                if lim and re.search("[0-9]{%d}" % (lim + 1), s) and "Exceeds the limit" in str(e):
+                    cond = "CSI parameter longer than the int-string-conversion limit"
+            bad("ANSI.__init__", cond, f"{type(e).__name__}: {str(e)[:120]}")
             return
         for st, tx in fr:
             if "[ZeroWidthEscape]" not in st and len(tx) != 1:
@@ -422,13 +965,24 @@ def oracle_op(op, viol):
         if not any(c in s for c in INTRODUCERS) and fr != [("", c) for c in s]:
             bad("ANSI.__init__", "plain string", "a string without introducers is not reproduced verbatim")
     elif k in ("afmt", "amod", "amod1"):
-        oracle_ansi_template(op, viol)
+        oracle_ansi_call(make_call(op), viol)
+    elif k in ("repr", "ascii"):
+        import ast
+        r = run_op(op)
+        if ast.literal_eval(r) != op[1]:
+            bad("repr", "round trip", f"{r!r} does not evaluate to the value")
     elif k == "aesc":
         r = ansi_escape(op[1])
         if len(r) != len(op[1]) or any(c in r for c in (ESC, CSI8, SOH, STX)):
             bad("ansi_escape", "introducer left", f"escaped value {r!r} still contains an introducer")
         if any(a != b and b != "?" for a, b in zip(op[1], r)):
             bad("ansi_escape", "other character changed", f"{r!r}")
+        for extra in ("", "\ud800\udfff"):
+            v = op[1] + extra
+            fr = ansi_frags(ansi_escape(v))
+            if fr != [("", "?" if c in (ESC, CSI8, SOH, STX, BS) else c) for c in v]:
+                bad("ansi_escape", "parse(escape(v)) != v", f"value={v!r} got={fr!r}")
+                break
     elif k == "hesc":
         r = html_escape(op[1])
         if any(c in r for c in "<>\"'\r") or re.search(r"&(?!amp;|lt;|gt;|quot;|#39;|#13;)", r) \
@@ -438,6 +992,18 @@ def oracle_op(op, viol):
         want = XML_ILLEGAL.sub("?", op[1])
         if _html.unescape(r) != want:
             bad("html_escape", "round trip", f"{r!r} does not decode to the value")
+        # the escaped value, parsed, shows the value (all code points; a Python str can also hold
+        # lone surrogates, which the Lean model cannot represent: probed here on the real code only)
+        for extra in ("", "\ud800", "\udfff", "\ufffe\uffff"):
+            v = op[1] + extra
+            try:
+                got = to_plain_text(HTML(html_escape(v)))
+            except Exception as e:
+                bad("html_escape", "escaped value rejected by the parser", f"{type(e).__name__}: {e} value={v!r}")
+                break
+            if got != XML_ILLEGAL.sub("?", v):
+                bad("html_escape", "parse(escape(v)) != v", f"value={v!r} got={got!r}")
+                break
     elif k in ("split", "explode", "text", "len", "width"):
         frags = [tuple(f) for f in op[1]]
         real = to_real_frags(op[1])
@@ -503,6 +1069,32 @@ def oracle_op(op, viol):
                 "plain text is not the interleaving of the parts")
     elif k in ("html", "hfmt", "hmod", "hmod1"):
         oracle_html(op, viol)
+    elif k == "el":
+        # the documented contract of an exploded list: every string is exactly one character, also
+        # after the list's own mutators (the inherited `+=` is outside it, see the known observation)
+        own = [o for o in op[2] if o[0] != "IA"]
+        cut = next((i for i, o in enumerate(op[2]) if o[0] == "IA"), len(op[2]))
+        fr, _ = run_el(op[1], op[2][:cut])
+        if any(len(f[1]) != 1 for f in fr):
+            bad("_ExplodedList", "fragment longer than one character", f"{fr!r}")
+        # append / extend add exactly the characters of the argument
+        for i, o in enumerate(op[2][:cut]):
+            if o[0] in ("A", "E") and (o[0] == "A" or o[1][0] == "P"):
+                before, _ = run_el(op[1], op[2][:i])
+                after, _ = run_el(op[1], op[2][:i + 1])
+                add = [o[1]] if o[0] == "A" else o[1][1]
+                if [tuple(f) for f in after] != [tuple(f) for f in before] + explode_py([tuple(f) for f in add]):
+                    bad("_ExplodedList", "append/extend content", f"{after!r}")
+    elif k == "pyg":
+        r = run_op(op)
+        if "".join(f[1] for f in r) != "".join(t for _, t in op[1]) or len(r) != len(op[1]):
+            bad("PygmentsTokens", "text", "texts of the tokens are not preserved")
+    elif k == "tfta":
+        d, kind, payload = op[3]
+        if kind == "other" and d == 0 and op[2]:
+            r = run_op(op)
+            if [f[1] for f in r] != [str(real_val(payload))]:
+                bad("to_formatted_text", "auto_convert", f"{r!r}")
 
 
 XML_ILLEGAL = re.compile("[^\t\n\r\x20-\ud7ff\ue000-\ufffd\U00010000-\U0010ffff]")
@@ -531,23 +1123,15 @@ def oracle_html(op, viol):
             viol.append({"signature": "HTML.__init__ | character data",
                          "msg": f"plain text {to_plain_text(h)!r} != character data {want!r}: op={op!r}"})
         return
-    items = op[1]
-    vals = [op[2]] if k.endswith("1") else list(op[2])
-    percent = k != "hfmt"
-    site = "HTML.format" if k == "hfmt" else "HTML.__mod__"
-    holes = [it for it in items if it[0] == "hole"]
-    if percent:
-        if len(holes) != len(vals):
-            return
-        picks = list(range(len(holes)))
-    else:
-        idxs = [h[1] for h in holes]
-        if any(i is None for i in idxs) and any(i is not None for i in idxs):
-            return
-        picks = [i if i is not None else n for n, i in enumerate(idxs)]
-        if any(p >= len(vals) for p in picks):
-            return
-    used = [vals[p] for p in picks]
+    oracle_html_call(make_call(op), viol)
+
+
+def oracle_html_call(call, viol):
+    import html as _html
+    if call["used"] is None:
+        return
+    items, percent, site, holes, used, op = (call["items"], call["percent"], call["site"], call["holes"],
+                                             call["used"], call["op"])
 
     def fill(subst):
         n = 0
@@ -561,7 +1145,7 @@ def oracle_html(op, viol):
         return "".join(parts)
 
     try:
-        HTML(op_template(op))
+        HTML(call["template"])
     except Exception:
         return      # the template itself is not acceptable: nothing is claimed
     wp = percent and any((holes[i][2] or "").strip("-") and html_escape(used[i]) != used[i]
@@ -621,11 +1205,13 @@ def oracle_html(op, viol):
     except Exception as e:
         ideal, ideal_exc = None, type(e).__name__
     try:
-        got = html_cells(_run_html(op))
+        got = html_cells(call["run"]())
     except Exception as e:
         name = type(e).__name__
         if name != ideal_exc or text_holes:
-            viol.append({"signature": classify(f"{site} | raises", True), "msg": f"{name}: {e} op={op!r}"})
+            # the known corners are all rejections by the XML parser; any other exception is its own class
+            sig = classify(f"{site} | raises", True) if name == "ExpatError" else f"{site} | raises {name}"
+            viol.append({"signature": sig, "msg": f"{name}: {e} op={op!r} template={call['template']!r}"})
         return
     if ideal_exc is not None:
         dflt = f"{site} | value not inert"
@@ -661,25 +1247,54 @@ def oracle_html(op, viol):
                      "msg": f"op={op!r} got={got!r} expected={expected!r}"})
 
 
-def _run_html(op):
-    k = op[0]
-    if k == "hfmt":
-        return HTML(op_template(op)).format(*op[2])
-    if k == "hmod":
-        return HTML(op_template(op)) % tuple(op[2])
-    return HTML(op_template(op)) % op[2]
+def ET_text(markup):
+    """character data of a markup string by a different DOM builder (None: not well-formed)"""
+    import xml.etree.ElementTree as ET
+    try:
+        return "".join(ET.fromstring("<r>" + markup + "</r>").itertext())
+    except Exception:
+        return None
 
 
-def oracle(case):
+def oracle_case(case, captured):
+    """the property on every op of the case (in the process image the ops ran in)"""
     v = []
-    for op in case["ops"]:
-        oracle_op(op, v)
+    tmpls = {}
+    for i, op in enumerate(case["ops"]):
+        k = op[0]
+        if k == "snew":
+            if captured[i] is None:         # construction succeeded
+                tmpls[op[1]] = (op[2], op[3], op[4])
+            else:
+                tmpls.pop(op[1], None)
+        elif k in ("sfmt", "smod", "smod1"):
+            if op[1] not in tmpls:
+                continue
+            call = make_call(op, captured[i], tmpls[op[1]])
+            if call is not None:
+                (oracle_ansi_call if call["kind"] == "ansi" else oracle_html_call)(call, v)
+        elif k == "sget":
+            # an object that was formatted / read before still shows its own template text
+            if op[1] in tmpls and captured[i][0] == "val":
+                kind, items, style = tmpls[op[1]]
+                text = sess_template(["snew", op[1], kind, items, style])
+                want = ET_text(text) if kind == "html" else visible_reference(text)
+                got = "".join(f[1] for f in captured[i][1] if "[ZeroWidthEscape]" not in f[0])
+                if want is not None and got != want:
+                    v.append({"signature": "to_formatted_text | object changed by earlier calls",
+                              "msg": f"op={op!r} template={text!r} text={got!r} expected={want!r}"})
+        else:
+            oracle_op(op, v)
     seen, out = set(), []
     for x in v:
         if x["signature"] not in seen:
             seen.add(x["signature"])
             out.append(x)
     return out
+
+
+def oracle(case):
+    return evaluate(case)[1]
 
 
 # ------------------------------------------------------------------ generators
@@ -699,9 +1314,24 @@ FORMAT_SPECS = [None, "", "s", "5", ">4", "^5", "*<3", ".1", "6.2", "x^4.1s", "<
 PERCENT_SPECS = [None, "", "3", "-3", ".1", "4.1", "-4.2", "."]
 
 
-def chunked(ops, n=30):
+def chunked(ops, n=60):
     for i in range(0, len(ops), n):
         yield {"ops": ops[i:i + n]}
+
+
+def int_limit_cases():
+    """control-sequence parameters around the interpreter's int-string-conversion limit"""
+    lim = sys.get_int_max_str_digits() if hasattr(sys, "get_int_max_str_digits") else 0
+    lim = lim or 4300
+    ops = []
+    for n in (lim - 1, lim, lim + 1, lim + 700):
+        ops.append(["ansi", ESC + "[" + "1" * n + "mX"])
+        ops.append(["ansi", CSI8 + "0" * n + "1;4mX"])
+        ops.append(["ansi", ESC + "[31;" + "0" * (n - 1) + "2CX"])
+        ops.append(["ansi", "a" + ESC + "[" + "7" * n])              # unterminated: int() is never called
+        ops.append(["ansi", "9" * n + ESC + "[1m" + "9" * n])        # digits outside a control sequence
+        ops.append(["ansi", SOH + "5" * n + STX + "x"])
+    return ops
 
 
 def sgr_cases():
@@ -766,6 +1396,210 @@ def rand_template(rng, specs, allow_incomplete=True, explicit=False):
             else:
                 items.append(["lit", lit])
     return items, nholes
+
+
+FIELD_NAMES = ["name", "x", "k_1", "msg"]
+NONSTR_P = [{"none": 1}, {"list": ["<", "a"]}, {"list": []}, {"obj": ["<o&>", "R'\"" + ESC]}, {"uobj": ["u" + SOH, "<U>"]}]
+NONSTR_N = [{"int": 0}, {"int": 1}, {"bool": True}, {"bool": False}, {"int": -12}, {"int": 10 ** 20}]
+
+
+def decorate_holes(rng, items, mode):
+    """give the holes of a format template their argument names and conversions:
+    mode auto | explicit | kw | auto+kw | explicit+kw"""
+    for it in items:
+        if it[0] != "hole":
+            continue
+        while len(it) < 4:
+            it.append(None)
+        named = mode == "kw" or (mode.endswith("+kw") and rng.random() < 0.5)
+        if named:
+            it[1] = rng.choice(FIELD_NAMES)
+        elif mode.startswith("explicit"):
+            it[1] = rng.randrange(0, 3)
+        else:
+            it[1] = None
+        if rng.random() < 0.25:
+            it[3] = rng.choice(["r", "s", "a"])
+    return items
+
+
+def format_call_values(rng, items, value, nonstr=0.12):
+    """positional and keyword values for a format template (mostly complete, sometimes one missing);
+    numbers only where every field that could receive one has an empty spec or a conversion"""
+    holes = [it for it in items if it[0] == "hole"]
+    num_ok = all(h[2] in (None, "") or (len(h) > 3 and h[3]) for h in holes)
+
+    def val():
+        r = rng.random()
+        if r < nonstr:
+            return rng.choice(NONSTR_P + (NONSTR_N if num_ok else []))
+        return value()
+
+    npos = 0
+    for h in holes:
+        if h[1] is None:
+            npos += 1
+    if any(isinstance(h[1], int) for h in holes):
+        npos = 3
+    npos = max(0, npos + rng.choice([0, 0, 0, 0, 0, 0, 1, -1]))
+    args = [val() for _ in range(npos)]
+    names = sorted({h[1] for h in holes if isinstance(h[1], str)})
+    kw = {n: val() for n in names}
+    if names and rng.random() < 0.06:
+        del kw[rng.choice(names)]
+    if rng.random() < 0.1:
+        kw["unused"] = val()
+    return args, kw
+
+
+HOLE_MODES = ["auto", "auto", "auto", "explicit", "kw", "kw", "auto+kw", "explicit+kw"]
+
+# ---- sessions: several calls in one process on the same template text
+SESS_VALUES = ["", "a", "b", "<", "&", "'", ESC, "{", "ab"]
+SESS_NONSTR_PAIRS = [({"int": 1}, {"bool": True}), ({"bool": True}, {"int": 1}), ({"int": 0}, {"bool": False}),
+                     ("1", {"int": 1}), ({"none": 1}, "None"), ({"list": ["<"]}, "['<']"),
+                     ({"obj": ["p", "P"]}, {"obj": ["q", "Q"]}), ({"uobj": ["p", "P"]}, {"uobj": ["q", "Q"]}),
+                     ({"list": ["a"]}, {"list": ["b"]})]
+# (kind, style, items)
+SESS_TEMPLATES = [
+    ("html", "f", [["lit", "<b>"], ["hole", "name", None], ["lit", "</b>"]]),
+    ("html", "f", [["lit", "<i>"], ["hole", "a", None], ["lit", "</i>"], ["hole", "b", ">3"]]),
+    ("html", "f", [["hole", 0, None], ["lit", "<u>"], ["hole", "k", None], ["lit", "</u>"], ["hole", 0, None]]),
+    ("html", "f", [["hole", None, None], ["lit", "<b>"], ["hole", "x", None, "r"], ["lit", "</b>"], ["hole", None, None]]),
+    ("html", "f", [["lit", '<style fg="'], ["hole", "c", None], ["lit", '">'], ["hole", "t", None], ["lit", "</style>"]]),
+    ("html", "f", [["lit", "<b>"], ["hole", None, None], ["lit", "</b>-<u>"], ["hole", None, None], ["lit", "</u>"]]),
+    ("ansi", "f", [["lit", ESC + "[1m"], ["hole", "name", None], ["lit", ESC + "[0m"], ["hole", None, None]]),
+    ("ansi", "f", [["hole", "a", None], ["hole", "b", "^3", "s"]]),
+    ("ansi", "f", [["hole", 0, None], ["lit", CSI8 + "4m"], ["hole", "k", None]]),
+    ("html", "p", [["lit", "<b>"], ["hole", None, None], ["lit", "</b>"]]),
+    ("ansi", "p", [["hole", None, None], ["lit", "-" + ESC + "[31m"], ["hole", None, None]]),
+]
+
+
+def sess_call(tmpl, oid, v, alt="w"):
+    """one call on object `oid` of template `tmpl` with `v` as the value of the first field of each
+    kind and derived values for the others"""
+    kind, style, items = tmpl
+    holes = [it for it in items if it[0] == "hole"]
+
+    def derived(j):
+        if j == 0 or not isinstance(v, str):
+            return v
+        return alt + v
+
+    if style == "p":
+        return ["smod", oid, [derived(j) for j in range(len(holes))]]
+    npos = sum(1 for h in holes if h[1] is None)
+    if any(isinstance(h[1], int) for h in holes):
+        npos = 1 + max(h[1] for h in holes if isinstance(h[1], int))
+    names = []
+    for h in holes:
+        if isinstance(h[1], str) and h[1] not in names:
+            names.append(h[1])
+    return ["sfmt", oid, [derived(j) for j in range(npos)], {n: derived(j) for j, n in enumerate(names)}]
+
+
+def sess_new(tmpl, oid):
+    return ["snew", oid, tmpl[0], tmpl[2], tmpl[1]]
+
+
+def de_bruijn(k, n):
+    """cyclic sequence over range(k) in which every word of length n occurs exactly once"""
+    a = [0] * (k * n)
+    seq = []
+
+    def db(t, p):
+        if t > n:
+            if n % p == 0:
+                seq.extend(a[1:p + 1])
+        else:
+            a[t] = a[t - p]
+            db(t + 1, p)
+            for j in range(a[t - p] + 1, k):
+                a[t] = j
+                db(t + 1, t)
+
+    db(1, 1)
+    return seq
+
+
+def session_cases(quick, rng):
+    # exhaustive: every template x every ordered pair of values (as consecutive calls) x three
+    # object disciplines.  Per template and discipline one long session walks through all ordered
+    # pairs (a de Bruijn sequence over the values); short sessions start from a fresh process for
+    # the pairs (v, next v) and for the non-str pairs.
+    walk = [SESS_VALUES[i] for i in de_bruijn(len(SESS_VALUES), 2)]
+    walk.append(walk[0])
+    ring = list(zip(SESS_VALUES, SESS_VALUES[1:] + SESS_VALUES[:1]))
+    for ti, tmpl in enumerate(SESS_TEMPLATES):
+        other = next(t for t in SESS_TEMPLATES[ti + 1:] + SESS_TEMPLATES if t[1] == tmpl[1] and t is not tmpl)
+        holes = [it for it in tmpl[2] if it[0] == "hole"]
+        num_ok = all(h[2] in (None, "") or (len(h) > 3 and h[3]) for h in holes) and \
+            all(h[2] in (None, "") or (len(h) > 3 and h[3]) for h in other[2] if h[0] == "hole")
+
+        def is_num(v):
+            return isinstance(v, dict) and ("int" in v or "bool" in v)
+
+        # one object, formatted with every value after every value
+        yield {"ops": [sess_new(tmpl, 0)] + [sess_call(tmpl, 0, v) for v in walk] + [["sget", 0]]}
+        # a fresh object of the same template text for every call
+        ops = []
+        for j, v in enumerate(walk):
+            ops += [sess_new(tmpl, j % 3), sess_call(tmpl, j % 3, v)]
+        yield {"ops": ops}
+        # two templates, interleaved
+        ops = [sess_new(tmpl, 0), sess_new(other, 1)]
+        for v in walk:
+            ops += [sess_call(tmpl, 0, v), sess_call(other, 1, v)]
+        yield {"ops": ops + [["sget", 1], ["sget", 0]]}
+        for v1, v2 in ring:
+            # from a fresh process: one object, formatted three times (v1, v2, v1 again), then read
+            yield {"ops": [sess_new(tmpl, 0), sess_call(tmpl, 0, v1), sess_call(tmpl, 0, v2),
+                           sess_call(tmpl, 0, v1), ["sget", 0]]}
+            # a fresh object of the same template text for every call
+            yield {"ops": [sess_new(tmpl, 0), sess_call(tmpl, 0, v1), sess_new(tmpl, 1), sess_call(tmpl, 1, v2),
+                           sess_new(tmpl, 2), sess_call(tmpl, 2, v1)]}
+        for v1, v2 in [pr for pr in SESS_NONSTR_PAIRS if num_ok or not (is_num(pr[0]) or is_num(pr[1]))]:
+            # non-str values: equal-but-different (1 / True), unhashable, str() of the other
+            yield {"ops": [sess_new(tmpl, 0), sess_new(other, 1), sess_call(tmpl, 0, v1), sess_call(tmpl, 0, v2),
+                           sess_call(other, 1, v2), sess_call(tmpl, 0, v1), sess_new(tmpl, 2),
+                           sess_call(tmpl, 2, v2), ["sget", 0]]}
+    # random sessions: 1-3 objects, a small pool of values, so equal names meet different values
+    for _ in range(250 if quick else 9000):
+        nobj = rng.randrange(1, 4)
+        tmpls, ops = [], []
+        for oid in range(nobj):
+            kind = rng.choice(["html", "ansi"])
+            style = rng.choice(["f", "f", "f", "p"])
+            if tmpls and rng.random() < 0.4:
+                kind, style, items = tmpls[rng.randrange(len(tmpls))]      # the same text again
+                items = json.loads(json.dumps(items))
+            elif kind == "ansi":
+                items, _ = rand_template(rng, FORMAT_SPECS if style == "f" else PERCENT_SPECS,
+                                         allow_incomplete=False)
+            else:
+                items, _ = rand_html_template(rng, HTML_FORMAT_SPECS if style == "f" else PERCENT_SPECS)
+            if style == "f":
+                decorate_holes(rng, items, rng.choice(HOLE_MODES))
+            tmpls.append((kind, style, items))
+            ops.append(["snew", oid, kind, items, style])
+        pool = [rand_value(rng, 3) for _ in range(3)]
+        for _ in range(rng.randrange(2, 9)):
+            oid = rng.randrange(nobj)
+            kind, style, items = tmpls[oid]
+            r = rng.random()
+            if r < 0.12:
+                ops.append(["sget", oid])
+            elif style == "f":
+                args, kw = format_call_values(rng, items, lambda: rng.choice(pool))
+                ops.append(["sfmt", oid, args, kw])
+            else:
+                nh = sum(1 for it in items if it[0] == "hole")
+                vals = [rng.choice(pool + NONSTR_P + NONSTR_N) if rng.random() < 0.1 else rng.choice(pool)
+                        for _ in range(nh)]
+                ops.append(["smod1", oid, vals[0]] if len(vals) == 1 and rng.random() < 0.5 and
+                           not isinstance(vals[0], dict) else ["smod", oid, vals])
+        yield {"ops": ops}
 
 
 # ---- HTML
@@ -849,6 +1683,18 @@ def rand_html_template(rng, specs, explicit=False):
     return items, len(holes)
 
 
+HTML_TOKENS = ["<!--", "-->", "-", "<![CDATA[", "]]>", "]", "<?p", "?>", "?", " ", "a", "<b>", "</b>", ">", "&amp;",
+               "\r", "\n"]
+HTML_EXTRA = ["<xml>x</xml>", "<xmlns>x</xmlns>", "<XmL a='1'>x</XmL>", "<b xmlnsx='1' xml='2' XMLNS='3'>x</b>",
+              "<b><b>x</b>y<b>z</b></b>", "<style><style>x</style></style>", "<b><style fg='r'><b>x</b></style></b>",
+              "<?xml?>", "<?xml version='1.0'?>", "<?XML?>", "<?xmlx?>", "<?p?x>", "<?1?>", "<?p:q?>", "<?p-q.r_s?>",
+              "<? p?>", "<!DOCTYPE a>", "<!a>", "<![IGNORE[x]]>", "<![CDATA [x]]>", "<!- -x-->", "<!--->", "<!--a--->",
+              "<b fg='a b'>x</b><!-- c -->", "<!-- c --><b fg='a b'>x</b>", "<b><!-- c --></b>", "<b><?p?></b>y",
+              "<![CDATA[\r]]>", "a\r<![CDATA[]]>\nb", "a]<![CDATA[]]>]>b", "a]]<!---->>b", "a&#13;<![CDATA[]]>\nb",
+              "<![CDATA[]]]>", "<![CDATA[]]]]>", "<![CDATA[]]>]]>", "<![CDATA[<b>&]]>", "<b fg='<!--'>x</b>",
+              "<b fg='x'><![CDATA[]]></b>", "&#x10FFFF;", "&#x110000;", "&#xD800;", "&#xFFFE;", "&#00065;", "&#X41;",
+              "&#99999999999999999999;", "&#x0000000041;", "<b fg=\"a'b\" bg='c\"d'>x</b>", "<b  fg='r'\n\tbg='s'\r>x</b>",
+              " a  b ", "<b> </b>", "\t\n", "<b/><b />", "<b fg=''>x</b>", "<b color='c' fg='f'>x</b>", "<b fg='f' color='c'>x</b>"]
 HTML_FORMAT_SPECS = [None, None, "", "s", "5", ">4", "^5", "*>3", ".1", "6.2", "x^4.1s", ">", "<"]
 HTML_FMT_POOL = [
     [["hole", None, None]],
@@ -897,6 +1743,76 @@ def rand_frags(rng, maxn=6):
     return out
 
 
+EL_INITS = [[], [["", "ab", None]], [["s", "a", None], ["t", "bc", 0]]]
+EL_FRAGS = [["u", "", None], ["u", "x", None], ["u", "xyz", 1]]
+EL_ARGS = [["S"], ["P", []], ["P", [["v", "pq", None]]], ["P", [["v", "p", None], ["w", "", None], ["w", "qr", 2]]]]
+EL_INDEXES = [-3, -2, -1, 0, 1, 2, 3]
+EL_BOUNDS = [None, -2, -1, 0, 1, 2, 5]
+
+
+def el_op_pool():
+    pool = [["A", f] for f in EL_FRAGS] + [["E", a] for a in EL_ARGS]
+    pool += [["I", 0, EL_FRAGS[1]], ["I", -1, EL_FRAGS[2]], ["X"]]
+    pool += [["S", i, f] for i in EL_INDEXES for f in EL_FRAGS]
+    pool += [["SL", i, a] for i in EL_INDEXES for a in EL_ARGS]
+    pool += [["SS", a, b, x] for a in EL_BOUNDS for b in EL_BOUNDS for x in EL_ARGS]
+    pool += [["ST", a, b, f] for a in EL_BOUNDS for b in EL_BOUNDS for f in EL_FRAGS]
+    pool += [["IA", []], ["IA", [["z", "long", None], ["z", "", None]]]]
+    return pool
+
+
+def rand_el_op(rng):
+    k = rng.choice(["A", "E", "E", "I", "S", "S", "SL", "SS", "SS", "ST", "IA", "X"])
+    f = rng.choice(EL_FRAGS + [["w", "\n世", 3]])
+    a = rng.choice(EL_ARGS + [["P", rand_frags(rng, 3)]])
+    i = rng.randrange(-6, 7)
+    b1, b2 = rng.choice(EL_BOUNDS + [-7, 9]), rng.choice(EL_BOUNDS + [-7, 9])
+    return {"A": ["A", f], "E": ["E", a], "I": ["I", i, f], "S": ["S", i, f], "SL": ["SL", i, a],
+            "SS": ["SS", b1, b2, a], "ST": ["ST", b1, b2, f], "IA": ["IA", rand_frags(rng, 2)], "X": ["X"]}[k]
+
+
+OTHER_VALUES = [{"int": 5}, {"bool": False}, {"obj": ["<o>", "R"]}, {"uobj": ["u\n", "U"]}]
+PYG_NAMES = ["Name", "Function", "Keyword", "A", "b_c", "X1"]
+
+
+def frag_extra_cases(quick, rng):
+    """_ExplodedList mutators, to_formatted_text(auto_convert), PygmentsTokens"""
+    ops = []
+    pool = el_op_pool()
+    for init in EL_INITS:
+        for o in pool:
+            ops.append(["el", init, [o]])
+            ops.append(["el", init, [["A", EL_FRAGS[2]], o, ["X"]]])
+    for _ in range(300 if quick else 20000):
+        ops.append(["el", rng.choice(EL_INITS + [rand_frags(rng, 3)]),
+                    [rng.choice(pool) if rng.random() < 0.5 else rand_el_op(rng) for _ in range(rng.randrange(1, 7))]])
+    for d in range(0, 3):
+        for ac in (False, True):
+            for st in ("", "b"):
+                for pay in OTHER_VALUES:
+                    ops.append(["tfta", st, ac, [d, "other", pay]])
+                ops.append(["tfta", st, ac, [d, "str", "x"]])
+                ops.append(["tfta", st, ac, [d, "none", None]])
+                ops.append(["tfta", st, ac, [d, "list", [["s", "ab", None], ["t", "c", 1]]]])
+    # Template.format / merge_formatted_text, repeated on the same template text with other values
+    for text in ["a{}b", "{}{}", "x{}y{}z", "{}"]:
+        n = text.count("{}")
+        for v1, v2 in [("p", "q"), ("<b>", ""), ("{}", "{0}")]:
+            for vals in ([v1] * n, [v2] * n, [v1] * n):
+                ops.append(["templ", text, [[0, "str", v] for v in vals]])
+                ops.append(["merge", [[1, "str", v] for v in vals]])
+    for n in range(0, 4):
+        for names in itertools.product(PYG_NAMES[:3], repeat=n):
+            ops.append(["pyg", [[list(names), "t" * n], [[], ""], [["A"], "x\ny"]]])
+    for _ in range(100 if quick else 5000):
+        ops.append(["tfta", rng.choice(["", "bold", "class:x y"]), rng.random() < 0.5,
+                    [rng.choice([0, 0, 1, 2]), "other", rng.choice(OTHER_VALUES)] if rng.random() < 0.5
+                    else rand_any(rng)])
+        ops.append(["pyg", [[[rng.choice(PYG_NAMES) for _ in range(rng.randrange(0, 4))], rand_value(rng, 4)]
+                            for _ in range(rng.randrange(0, 4))]])
+    yield from chunked(ops, 150)
+
+
 def rand_any(rng):
     kind = rng.choice(["none", "str", "list", "ft", "ansi"])
     d = rng.choice([0, 0, 0, 1, 2])
@@ -909,7 +1825,35 @@ def rand_any(rng):
     return [d, kind, rand_frags(rng, 3)]
 
 
+_GENERATED = {}     # tier -> [first index in _REG, end index, set of case keys or None]
+
+
+def _case_key(c):
+    import hashlib
+    return hashlib.sha1(json.dumps(c, sort_keys=True, default=str).encode()).digest()
+
+
 def cases(tier, rng):
+    """all cases of a tier.  core.py asks again with other seeds when an anchored source changed
+    (escalation): the exhaustive families are the same for every seed and are then dropped."""
+    prev = _GENERATED.get(tier)
+    if prev is not None and prev[2] is None:
+        prev[2] = {_case_key(c) for c in _REG[prev[0]:prev[1]]}
+    start = len(_REG)
+    for c in gen_cases(tier, rng):
+        if prev is not None:
+            k = _case_key(c)
+            if k in prev[2]:
+                continue
+            prev[2].add(k)
+        _IDX[id(c)] = len(_REG)
+        _REG.append(c)
+        yield c
+    if prev is None:
+        _GENERATED[tier] = [start, len(_REG), None]
+
+
+def gen_cases(tier, rng):
     quick = tier == "quick"
     # ---- 1. ANSI inputs, exhaustive
     ops = []
@@ -921,7 +1865,8 @@ def cases(tier, rng):
         for tup in itertools.product(ANSI_ALPHA_SMALL, repeat=6):
             ops.append(["ansi", "".join(tup)])
     ops += sgr_cases()
-    yield from chunked(ops, 60)
+    yield from chunked(ops, 150)
+    yield from chunked(int_limit_cases(), 6)
 
     # ---- 2. escape functions + interpolation, exhaustive over short values
     vmax = 2 if quick else 3
@@ -932,7 +1877,7 @@ def cases(tier, rng):
     for v in values:
         ops.append(["aesc", v])
         ops.append(["hesc", v])
-    yield from chunked(ops, 60)
+    yield from chunked(ops, 150)
     fmt_pool = [
         [["hole", None, None]],
         [["lit", "a"], ["hole", None, None], ["lit", "b"]],
@@ -960,7 +1905,7 @@ def cases(tier, rng):
             if nh == 1:
                 ops.append(["amod1", t, v])
             ops.append(["amod", t, [v] + ["w" + v] * (nh - 1)])
-    yield from chunked(ops, 40)
+    yield from chunked(ops, 100)
     # every spec x a few values
     ops = []
     for sp in FORMAT_SPECS:
@@ -978,7 +1923,7 @@ def cases(tier, rng):
                   ([["lit", "x"]], ["a"]), ([["lit", "x"]], [])]:
         ops.append(["afmt", t, vs])
         ops.append(["amod", [[it[0], None, None] if it[0] == "hole" else it for it in t], vs])
-    yield from chunked(ops, 40)
+    yield from chunked(ops, 100)
 
     # ---- 2b. HTML: every string over a 12-symbol markup alphabet, then templates x values
     ops = []
@@ -992,7 +1937,13 @@ def cases(tier, rng):
               "x\ry\r\nz", "<b fg='a\r\nb'>x</b>", "<b fg='a&#10;b'>x</b>", "\x1b", "<b fg='a<b'>x</b>",
               "<b  fg = 'x' >y</b >", "<b\nfg='x'>y</b>", "<b fg='x'bg='y'>z</b>", "<b fg>z</b>", "<b>"]:
         ops.append(["html", t])
-    yield from chunked(ops, 60)
+    # token level: comments, CDATA sections, processing instructions, line ends, `]]>`
+    for n in range(0, (3 if quick else 4) + 1):
+        for tup in itertools.product(HTML_TOKENS, repeat=n):
+            ops.append(["html", "".join(tup)])
+    for t in HTML_EXTRA:
+        ops.append(["html", t])
+    yield from chunked(ops, 150)
     hvalues = [""]
     for n in range(1, vmax + 1):
         hvalues += ["".join(t) for t in itertools.product(HTML_VALUE_ALPHA, repeat=n)]
@@ -1007,7 +1958,7 @@ def cases(tier, rng):
             if nh == 1:
                 ops.append(["hmod1", t, v])
             ops.append(["hmod", t, [v] + ["w" + v] * (nh - 1)])
-    yield from chunked(ops, 40)
+    yield from chunked(ops, 100)
 
     # ---- 3. fragment utilities, exhaustive
     ops = []
@@ -1017,17 +1968,17 @@ def cases(tier, rng):
         ops.append(["text", fl])
         ops.append(["len", fl])
         ops.append(["width", fl])
-    yield from chunked(ops, 60)
+    yield from chunked(ops, 150)
 
     # ---- 4. random
-    nrand = 1500 if quick else 80000
+    nrand = 1500 if quick else 60000
     ops = []
     for _ in range(nrand):
         ops.append(["ansi", rand_ansi(rng, rng.choice([1, 2, 3, 5, 8, 20]))])
-        items, nh = rand_template(rng, FORMAT_SPECS, explicit=rng.random() < 0.2)
-        nvals = max(nh, 3) if any(it[0] == "hole" and it[1] is not None for it in items) else \
-            nh + rng.choice([0, 0, 0, 0, 1, -1])
-        ops.append(["afmt", items, [rand_value(rng) for _ in range(max(0, nvals))]])
+        items, nh = rand_template(rng, FORMAT_SPECS)
+        decorate_holes(rng, items, rng.choice(HOLE_MODES))
+        args, kw = format_call_values(rng, items, lambda: rand_value(rng))
+        ops.append(["afmt", items, args, kw])
         items, nh = rand_template(rng, PERCENT_SPECS)
         nvals = nh + rng.choice([0, 0, 0, 0, 0, 1, -1])
         vals = [rand_value(rng) for _ in range(max(0, nvals))]
@@ -1039,10 +1990,12 @@ def cases(tier, rng):
         ops.append(["aesc", v])
         ops.append(["hesc", v])
         ops.append(["html", rand_html_string(rng)])
-        items, nh = rand_html_template(rng, HTML_FORMAT_SPECS, explicit=rng.random() < 0.2)
-        nvals = 3 if any(it[0] == "hole" and it[1] is not None for it in items) else nh
-        ops.append(["hfmt", items, ["".join(rng.choice(HTML_VALUE_ALPHA + ["b", "1", "\u4e16"])
-                                            for _ in range(rng.randrange(0, 5))) for _ in range(nvals)]])
+        items, nh = rand_html_template(rng, HTML_FORMAT_SPECS)
+        decorate_holes(rng, items, rng.choice(HOLE_MODES))
+        args, kw = format_call_values(rng, items, lambda: "".join(
+            rng.choice(HTML_VALUE_ALPHA + ["b", "1", "\u4e16"]) for _ in range(rng.randrange(0, 5))))
+        ops.append(["hfmt", items, args, kw])
+        ops.append([rng.choice(["repr", "ascii"]), rand_value(rng, 8) + rng.choice(["", "'", '"', "\\", "\u00ad", "\U0001F600", "\u0378"])])
         items, nh = rand_html_template(rng, PERCENT_SPECS)
         vals = ["".join(rng.choice(HTML_VALUE_ALPHA + ["b", "1", "\u4e16"]) for _ in range(rng.randrange(0, 5)))
                 for _ in range(nh)]
@@ -1056,7 +2009,13 @@ def cases(tier, rng):
         nv = text.count("{}") + rng.choice([0, 0, 0, 0, 1])
         ops.append(["templ", text, [rand_any(rng) for _ in range(nv)]])
         ops.append(["merge", [rand_any(rng) for _ in range(nparts)]])
-    yield from chunked(ops, 60)
+    yield from chunked(ops, 150)
+
+    # ---- 4b. _ExplodedList mutators, to_formatted_text(auto_convert), PygmentsTokens
+    yield from frag_extra_cases(quick, rng)
+
+    # ---- 5. sessions (one case = one process)
+    yield from session_cases(quick, rng)
 
 
 # ------------------------------------------------------------------ evidence helpers
@@ -1104,4 +2063,6 @@ def distribution(cases_):
 
 
 if __name__ == "__main__":
+    if len(sys.argv) == 4 and sys.argv[1] == "--zygote":
+        zygote_main(int(sys.argv[2]), int(sys.argv[3]))
     sys.exit(core.main(sys.modules[__name__]))
